@@ -336,6 +336,92 @@ example : (preparePayload ⟨none, none, some 2, none, []⟩
     { m := 2, size := 3, heralds := [(1, 1)], input := some [1, 1, 1], post := none, noise := none,
       filter := some 0, params := [], circ := ⟨0, []⟩, cparams := [] } "probs" false false []).2 = .error .runtime := rfl
 
+/-- **iteration_constraints_enforced.**  An iteration accepted by `_check_iteration` — whatever other
+keys it carries and in whatever order — has had EVERY `input_state` entry checked: the state has the
+size of the processor's modes of interest and `n_state + n_heralds` is inside the platform's
+photon-count window; and every `circuit_params` entry names only parameters of the circuit, with
+numbers as values. -/
+theorem iteration_constraints_enforced (pf : Platform) (e : Exp) (it : Dict IV)
+    (h : checkIteration pf e it = none) :
+    (∀ st, ("input_state", IV.state st) ∈ it →
+      st.length = e.m ∧ (∀ mx, pf.maxPhotons = some mx → st.sum + heraldSum e ≤ mx) ∧
+      (∀ mn, pf.minPhotons = some mn → mn ≤ st.sum + heraldSum e)) ∧
+    (∀ v, ("input_state", v) ∈ it → ∃ st, v = IV.state st) ∧
+    (∀ d, ("circuit_params", IV.cparams d) ∈ it → checkCParams e.cparams d = none) := by
+  have hall := checkIteration_none pf e it h
+  refine ⟨?_, ?_, ?_⟩
+  · intro st hst
+    have hk := hall _ hst
+    simp only [checkIterKey] at hk
+    simp only [show ("input_state" = "circuit_params") = False from by decide, if_false, if_true] at hk
+    split at hk
+    · cases hk
+    · rename_i hlen
+      have hci : checkInput pf e st = none := hk
+      unfold checkInput at hci
+      simp only [hlen, if_false] at hci
+      refine ⟨by simpa using hlen, ?_, ?_⟩
+      · intro mx hmx
+        simp only [hmx, above] at hci
+        by_cases hlt : mx < st.sum + heraldSum e
+        · simp [hlt] at hci
+        · omega
+      · intro mn hmn
+        simp only [hmn, below] at hci
+        by_cases hlt : st.sum + heraldSum e < mn
+        · simp [hlt] at hci
+        · omega
+  · intro v hv
+    have hk := hall _ hv
+    simp only [checkIterKey] at hk
+    simp only [show ("input_state" = "circuit_params") = False from by decide, if_false, if_true] at hk
+    cases v with
+    | state st => exact ⟨st, rfl⟩
+    | cparams _ => cases hk
+    | int _ => cases hk
+    | noise _ => cases hk
+    | other => cases hk
+  · intro d hd
+    have hk := hall _ hd
+    simpa only [checkIterKey, if_true] using hk
+
+/-- too many photons in an iterated input state: refused, alone or next to `circuit_params`, in
+either order -/
+example : checkIteration ⟨none, none, some 3, none, []⟩
+    { m := 4, size := 4, heralds := [], input := none, post := none, noise := none, filter := some 0,
+      params := [], circ := ⟨0, []⟩, cparams := ["phi"] }
+    [("circuit_params", .cparams [("phi", .int 1)]), ("input_state", .state [1, 1, 1, 1])] = some .runtime := by decide
+example : checkIteration ⟨none, none, some 3, none, []⟩
+    { m := 4, size := 4, heralds := [], input := none, post := none, noise := none, filter := some 0,
+      params := [], circ := ⟨0, []⟩, cparams := ["phi"] }
+    [("input_state", .state [1, 1, 1, 1]), ("circuit_params", .cparams [("phi", .int 1)])] = some .runtime := by decide
+
+/-- **sent_iterations_were_checked.**  Over every history from the initial state: every iteration of
+every request the platform has received (and of every job created, and of the sampler's current list)
+was accepted by `_check_iteration` against the session's processor as it was when the iteration was
+added — with `iteration_constraints_enforced`: no iterated input state reaches the platform without
+its size and photon count having been checked. -/
+theorem sent_iterations_were_checked (pf : Platform) (ops : List Op) :
+    ∀ s ∈ (exec step (World.init pf) ops).log, ∀ it ∈ s.iterator, ∃ e : Exp, checkIteration pf e it = none := by
+  have hpf : (exec step (World.init pf) ops).pf = pf := by
+    apply inv_exec step (fun w => w.pf = pf)
+    · intro w op hw
+      cases hx : op.isExecute with
+      | false => rw [(step_frame w op hx).2.2.1]; exact hw
+      | true =>
+        cases op with
+        | execute idx args kw net =>
+          rcases step_execute w idx args kw net with ⟨-, h⟩ | ⟨j, its, -, -, h⟩ | ⟨j, its, err, -, -, -, h⟩ |
+              ⟨j, its, pl, -, -, -, h⟩ <;> rw [h] <;> exact hw
+        | _ => cases hx
+    · rfl
+  have h := inv_exec step World.ItersChecked itersChecked_step (World.init pf)
+    ⟨fun s hs => (by cases hs), fun ji hji => (by cases hji), fun s hs => (by cases hs)⟩ ops
+  intro s hs it hit
+  have := h.log s hs it hit
+  rw [hpf] at this
+  exact this
+
 /-! ## limits: `max_samples ≤ max_shots` -/
 
 /-- **clamp.**  Whatever the job, the positional and the keyword arguments: if `_create_payload_data`
@@ -353,7 +439,7 @@ theorem clamp_only_max_samples (pl pl' : Dict V) (h : clampPayload pl = .ok pl')
 example : clampPayload [("max_samples", .pv (.int 10000)), ("max_shots", .pv (.int 500))] =
     .ok [("max_samples", .pv (.int 500)), ("max_shots", .pv (.int 500))] := rfl
 
-/-! ## nothing is sent before `execute`; one `create_job` per successful `execute` -/
+/-! ## nothing is sent before `execute`; one `create_job` per `execute`, whatever the network does -/
 
 /-- In every state, a step whose output is a transmission is an `execute` step. -/
 theorem sent_only_by_execute (w : World) (op : Op) (h : (step w op).2.isSent = true) : op.isExecute = true := by
@@ -361,9 +447,10 @@ theorem sent_only_by_execute (w : World) (op : Op) (h : (step w op).2.isSent = t
   | true => rfl
   | false => rw [(step_frame w op hx).2.1] at h; cases h
 
-/-- **one_create_per_execute.**  Over every history, the calls received by `rpc_handler.create_job` are
-exactly the transmissions reported by the steps, in order: one entry per successful `execute_async`,
-nothing from any other call. -/
+/-- **one_create_per_execute.**  Over every history — whatever the network does to each request
+(`Net`: answered, delivered with the answer lost, not delivered / refused) — the requests received by
+the platform through `rpc_handler.create_job` are exactly the transmissions reported by the steps, in
+order: one entry per `execute_async` whose request was delivered, nothing from any other call. -/
 theorem one_create_per_execute (w : World) (ops : List Op) :
     (exec step w ops).log = w.log ++ sentOf (run step w ops).2 := by
   induction ops generalizing w with
@@ -373,6 +460,38 @@ theorem one_create_per_execute (w : World) (ops : List Op) :
     simp only [List.append_assoc]
     congr 1
     exact (sentOf_cons _ _).symm
+
+/-- **execution_creates_at_most_one_job.**  In every state, whatever the operation, its arguments and
+the behaviour of the network: ONE call makes the platform receive at most one request — none unless
+the call is an `execute` whose request was delivered, exactly one (the request reported) if it was.
+In particular a call that returns normally (`.sent`) has created exactly one remote job, and a call
+whose answer was lost (`.lost`) has created exactly one too: the client never re-sends. -/
+theorem execution_creates_at_most_one_job (w : World) (op : Op) :
+    (∀ s, (step w op).2 = .sent s ∨ (step w op).2 = .lost s → (step w op).1.log = w.log ++ [s]) ∧
+    ((step w op).2.isSent = false → (step w op).1.log = w.log) ∧
+    (step w op).1.log.length ≤ w.log.length + 1 := by
+  have hl := step_log w op
+  refine ⟨?_, ?_, ?_⟩
+  · intro s hs
+    rcases hs with hs | hs <;> rw [hl, hs] <;> rfl
+  · intro hs
+    rw [hl]
+    cases ho : (step w op).2 with
+    | sent s => rw [ho] at hs; cases hs
+    | lost s => rw [ho] at hs; cases hs
+    | err _ => simp [sentOf]
+    | done => simp [sentOf]
+    | payload _ => simp [sentOf]
+  · rw [hl]
+    cases (step w op).2 <;> simp [sentOf]
+
+/-- an answer lost on the way back: the job was created platform side, the call raises -/
+example : (step (exec step (World.init ⟨none, none, none, none, ["probs"]⟩)
+    [.newRemote false 2 0 [] none, .setFilter (some 0), .withInput [1, 0], .newSampler (.int 100), .createJob .probs])
+    (.execute 0 [] [] .lost)).2.isSent = true ∧
+  (exec step (World.init ⟨none, none, none, none, ["probs"]⟩)
+    [.newRemote false 2 0 [] none, .setFilter (some 0), .withInput [1, 0], .newSampler (.int 100), .createJob .probs,
+     .execute 0 [] [] .lost, .execute 0 [] [] .ok]).log.length = 1 := by decide
 
 /-- **no_send_before_execute.**  A history without `execute` transmits nothing, however the processor,
 the sampler and the jobs are configured, created and inspected (`prepare_job_payload` included). -/
@@ -388,15 +507,17 @@ example : (exec step (World.init ⟨none, none, none, none, ["probs"]⟩)
      .newSampler (.int 100), .createJob .probs]).log = [] := by decide
 
 /-- **A job is transmitted at most once.**  Once `execute_async` has been called on a job (whether it
-sent the job or raised), every later `execute_async` on the same job — after any history whatsoever —
-is refused with `AssertionError` and reaches the handler with nothing. -/
-theorem job_sent_at_most_once (w : World) (idx : Nat) (args args' : List PV) (kw kw' : Dict PV)
+sent the job, raised before sending, or the network failed — answer lost or request not delivered),
+every later `execute_async` on the same job — after any history whatsoever, whatever the network does
+then — is refused with `AssertionError` and reaches the handler with nothing: a request whose answer
+was lost is never sent a second time. -/
+theorem job_sent_at_most_once (w : World) (idx : Nat) (args args' : List PV) (kw kw' : Dict PV) (net net' : Net)
     (ops : List Op) (hidx : idx < w.jobs.length) :
-    let w₂ := exec step (step w (.execute idx args kw)).1 ops
-    step w₂ (.execute idx args' kw') = (w₂, .err .assertion) := by
+    let w₂ := exec step (step w (.execute idx args kw net)).1 ops
+    step w₂ (.execute idx args' kw' net') = (w₂, .err .assertion) := by
   intro w₂
-  have h1 : Executed (step w (.execute idx args kw)).1 idx := by
-    rcases step_execute w idx args kw with ⟨hn, -⟩ | ⟨j, its, hj, hf, h⟩ | ⟨j, its, err, hj, -, -, h⟩ |
+  have h1 : Executed (step w (.execute idx args kw net)).1 idx := by
+    rcases step_execute w idx args kw net with ⟨hn, -⟩ | ⟨j, its, hj, hf, h⟩ | ⟨j, its, err, hj, -, -, h⟩ |
         ⟨j, its, pl, hj, -, -, h⟩
     · rw [List.getElem?_eq_getElem hidx] at hn; cases hn
     · rw [h]; exact ⟨j, its, hj, hf⟩
@@ -404,7 +525,7 @@ theorem job_sent_at_most_once (w : World) (idx : Nat) (args args' : List PV) (kw
     · rw [h]; exact ⟨{ j with fresh := false }, its, by simp [hidx], rfl⟩
   have h2 : Executed w₂ idx := inv_exec step (Executed · idx) (fun s op hs => executed_step s op idx hs) _ h1 ops
   obtain ⟨j, its, hj, hf⟩ := h2
-  rcases step_execute w₂ idx args' kw' with ⟨hn, -⟩ | ⟨j', its', -, -, h⟩ | ⟨j', its', err, hj', hf', -, -⟩ |
+  rcases step_execute w₂ idx args' kw' net' with ⟨hn, -⟩ | ⟨j', its', -, -, h⟩ | ⟨j', its', err, hj', hf', -, -⟩ |
       ⟨j', its', pl, hj', hf', -, -⟩
   · rw [hj] at hn; cases hn
   · exact h
@@ -420,17 +541,19 @@ theorem clamp_every_sent (pf : Platform) (ops : List Op) :
     | false => rw [(step_frame w op hx).1]; exact hw
     | true =>
       cases op with
-      | execute idx args kw =>
-        rcases step_execute w idx args kw with ⟨-, h⟩ | ⟨j, its, -, -, h⟩ | ⟨j, its, err, -, -, -, h⟩ |
+      | execute idx args kw net =>
+        rcases step_execute w idx args kw net with ⟨-, h⟩ | ⟨j, its, -, -, h⟩ | ⟨j, its, err, -, -, -, h⟩ |
             ⟨j, its, pl, -, -, hc, h⟩ <;> rw [h]
         · exact hw
         · exact hw
         · exact hw
         · intro s hs
-          simp only [List.mem_append, List.mem_cons, List.not_mem_nil, or_false] at hs
-          rcases hs with hs | rfl
+          simp only [List.mem_append] at hs
+          rcases hs with hs | hs
           · exact hw s hs
-          · exact clamp j args kw pl hc
+          · cases net <;> simp only [received, List.mem_cons, List.not_mem_nil, or_false] at hs
+            · subst hs; exact clamp j args kw pl hc
+            · subst hs; exact clamp j args kw pl hc
       | _ => cases hx
   · intro s hs; cases hs
 
